@@ -2,7 +2,7 @@
    Model: Model/JsonCodec.v: [enc] = interpreter of the write tables (Gen/JsonW.v) producing the exact
    bytes of MarshalJSON; [dec] = byte-level fastjson model (Model/Text.v) + interpreter of the read tables
    (Gen/JsonR.v) + the type dispatch of JSONLoadItem (Gen/Switches.v).  Both directions are compared with
-   the real code inside Coq on every run (Cases_C02: bytes of the encoder; Cases_C01_dec: value decoded from
+   the real code inside Coq on every run (Cases_C02: length and checksum of the encoder's bytes; Cases_C01_dec: value decoded from
    the bytes the library wrote), and the round trip itself is evaluated natively on the real code with a
    reflection oracle (field by field, up to the documented normal form).
 
